@@ -679,12 +679,36 @@ def _s_format(it, s, *a, **k):
     raise Undecided("str.format on symbolic values")
 
 
+_replace_uf = z3.Function("str_replace_all", z3.StringSort(), z3.StringSort(), z3.StringSort(), z3.StringSort())
+
+
 @_sm("replace")
 def _s_replace(it, s, old, new, count=-1):
     from .strings import SStr
 
     if s.is_literal() and deep_concrete([old, new]):
         return s.literal().replace(old, new, count)
+    from .strings import Sym
+
+    if isinstance(old, SStr) and old.is_literal():
+        old = old.literal()
+    if isinstance(new, SStr) and new.is_literal():
+        new = new.literal()
+    if len(s.segs) == 1 and isinstance(s.segs[0], Sym) and isinstance(old, str) and isinstance(new, str) and count == -1 and old:
+        # A3: replace-all of a literal in an opaque text is an uninterpreted total function of (text, old, new);
+        # the only fact kept is that the result no longer contains `old` when `new` does not bring it back.
+        src = s.segs[0]
+        cache = it.ctx.__dict__.setdefault("_replace_cache", {})
+        key = (src.name, old, new)
+        if key not in cache:
+            d = Sym.__new__(Sym)
+            d.name = f"replace({src.name},{old!r},{new!r})"
+            d.forbid = frozenset()
+            d.trimmed = False
+            d.nonempty = False
+            d.var = _replace_uf(src.var, z3.StringVal(old), z3.StringVal(new))
+            cache[key] = d
+        return SStr([cache[key]])
     raise Undecided("replace on a symbolic string")
 
 
